@@ -15,7 +15,9 @@ import (
 	"bytes"
 	"encoding/json"
 	"fmt"
+	"io/ioutil"
 	"os"
+	"runtime/debug"
 	"runtime/pprof"
 	"sort"
 	"strconv"
@@ -270,7 +272,6 @@ func (m content) withPrefix(sorted []string, p []byte) []kv {
 type bop struct {
 	del  bool
 	k, v string
-	drop bool // understood: the store ignores this op (empty key on bolt / badger)
 }
 
 type model struct {
@@ -346,6 +347,7 @@ func newInst(c *cfg) *inst {
 
 func (in *inst) close() {
 	vk.Catch(func() { in.h.db.Close() })
+	in.h.closed()
 	in.h.cleanup()
 }
 
@@ -369,19 +371,15 @@ func (in *inst) step(o op) (string, string) {
 		case 2:
 			err = db.Put(k, v)
 		}
-		if len(k) == 0 && be.noEmptyKey {
-			// understood: the store cannot hold the empty key; the model follows the store
-			if err != nil {
-				in.note(be.base+":empty-key:Put-returns-error", fmt.Sprintf("Put(%s) returned %q; the reference map (and memdb, goleveldb, fsdb) store the empty key", bname(k), err))
-			} else {
-				in.note(be.base+":empty-key:write-silently-dropped", fmt.Sprintf("%s(%s,..) is accepted without error but nothing is stored", setNames[o.variant], bname(k)))
-			}
-			break
-		}
 		if err != nil {
+			if len(k) == 0 && be.noEmptyKey {
+				in.note(be.base+":empty-key:not-storable", fmt.Sprintf("Put(%s) returned %q; the reference map (and memdb, goleveldb, fsdb) store the empty key", bname(k), err))
+				break
+			}
 			return be.name + ":Put:error", fmt.Sprintf("Put(%s) returned %v", bname(k), err)
 		}
 		in.mo.set(string(k), string(v))
+		in.reconcileEmptyKey(setNames[o.variant] + "(" + bname(k) + ",..)")
 	case opDel:
 		k := cpb(c.keys[o.k])
 		var err error
@@ -397,9 +395,9 @@ func (in *inst) step(o op) (string, string) {
 		})
 		if len(k) == 0 && be.noEmptyKey && (p || err != nil) {
 			if p {
-				in.note(be.base+":empty-key:Delete-panics", fmt.Sprintf("%s(%s) panics: %v", delNames[o.variant], bname(k), pv))
+				in.note(be.base+":empty-key:Get-Has-Delete-panic", fmt.Sprintf("%s(%s) panics: %v", delNames[o.variant], bname(k), pv))
 			} else {
-				in.note(be.base+":empty-key:Del-returns-error", fmt.Sprintf("Del(%s) returned %q", bname(k), err))
+				in.note(be.base+":empty-key:not-storable", fmt.Sprintf("Del(%s) returned %q", bname(k), err))
 			}
 			break
 		}
@@ -416,17 +414,13 @@ func (in *inst) step(o op) (string, string) {
 			in.mo.bstate, in.mo.bops, in.mo.reused = 1, nil, false
 		}
 		k := cpb(c.keys[o.k])
-		drop := len(k) == 0 && be.noEmptyKey
 		if o.kind == opBSet {
 			v := cpb(c.vals[o.v])
 			in.batch.Set(k, v)
-			if drop {
-				in.note(be.base+":empty-key:write-silently-dropped", fmt.Sprintf("batch.Set(%s,..) is accepted but never stored (the rest of the batch is)", bname(k)))
-			}
-			in.mo.bops = append(in.mo.bops, bop{false, string(k), string(v), drop})
+			in.mo.bops = append(in.mo.bops, bop{false, string(k), string(v)})
 		} else {
 			in.batch.Delete(k)
-			in.mo.bops = append(in.mo.bops, bop{true, string(k), "", drop})
+			in.mo.bops = append(in.mo.bops, bop{true, string(k), ""})
 		}
 	case opBWrite:
 		switch o.variant {
@@ -440,9 +434,6 @@ func (in *inst) step(o op) (string, string) {
 			}
 		}
 		for _, b := range in.mo.bops {
-			if b.drop {
-				continue
-			}
 			if b.del {
 				in.mo.del(b.k)
 			} else {
@@ -450,6 +441,7 @@ func (in *inst) step(o op) (string, string) {
 			}
 		}
 		in.mo.bstate, in.mo.bops = 2, nil
+		in.reconcileEmptyKey("batch.Set(\"\",..) + " + writeNames[o.variant])
 	case opBReset:
 		in.batch.Reset()
 		in.mo.bstate, in.mo.bops, in.mo.reused = 1, nil, true
@@ -460,11 +452,32 @@ func (in *inst) step(o op) (string, string) {
 		in.batch = nil
 		in.mo.bstate, in.mo.bops, in.mo.reused = 0, nil, false
 		in.h.db.Close()
+		in.h.closed()
 		in.h.db = in.h.again()
 		in.mo.atReopen = in.mo.m.String()
 	}
 	in.cur = ""
 	return "", ""
+}
+
+// reconcileEmptyKey: bolt and badger cannot hold the empty key (understood deviation, reproduced on the
+// unchanged tree). If, after a write the model accepted, the model holds "" but the store says it does not,
+// the deviation is recorded and the model follows the store, so that the search continues behind it. The
+// store is asked, not assumed: on a tree where the empty key is storable nothing is recorded.
+func (in *inst) reconcileEmptyKey(how string) {
+	if !in.c.be.noEmptyKey {
+		return
+	}
+	if _, ok := in.mo.m[""]; !ok {
+		return
+	}
+	stored := false
+	vk.Catch(func() { stored = in.h.db.Has([]byte{}) })
+	if stored {
+		return
+	}
+	in.note(in.c.be.base+":empty-key:not-storable", how+" is accepted without error but nothing is stored under the empty key (memdb, goleveldb and fsdb store it)")
+	delete(in.mo.m, "")
 }
 
 // ---- oracle ----
@@ -672,6 +685,43 @@ func scratchRoot() string {
 	return os.TempDir()
 }
 
+// removeScratch deletes the scratch directories of this process (all = false) or of C19 processes that no
+// longer exist (all = true; leftovers of a killed run).
+func removeScratch(stale bool) {
+	ents, _ := ioutil.ReadDir(scratchRoot())
+	for _, e := range ents {
+		var pid, n int
+		if _, err := fmt.Sscanf(e.Name(), "C19-%d-%d", &pid, &n); err != nil {
+			continue
+		}
+		if stale {
+			if _, err := os.Stat(fmt.Sprintf("/proc/%d", pid)); err == nil {
+				continue
+			}
+		} else if pid != os.Getpid() {
+			continue
+		}
+		os.RemoveAll(scratchRoot() + "/" + e.Name())
+	}
+}
+
+// watchdog: a leak in a store under test must end as a harness error, not as an out-of-memory kill of
+// the machine the other checks run on.
+func watchdog() {
+	const limitKB = 24 << 20
+	for {
+		time.Sleep(2 * time.Second)
+		data, _ := ioutil.ReadFile("/proc/self/status")
+		for _, l := range strings.Split(string(data), "\n") {
+			var kb int
+			if _, err := fmt.Sscanf(l, "VmRSS: %d kB", &kb); err == nil && kb > limitKB {
+				removeScratch(false)
+				vk.Fatalf("memory watchdog: resident set %d MB exceeds %d MB", kb>>10, limitKB>>10)
+			}
+		}
+	}
+}
+
 func newDir() string {
 	n := atomic.AddInt64(&dirSeq, 1)
 	d := fmt.Sprintf("%s/C19-%d-%d", scratchRoot(), os.Getpid(), n)
@@ -749,6 +799,9 @@ func main() {
 		defer pprof.StopCPUProfile()
 	}
 	r := vk.Start("C19", "model_checking")
+	removeScratch(true)
+	debug.SetMemoryLimit(12 << 30) // soft: makes the collector work harder instead of growing (badger arenas)
+	go watchdog()
 	only := os.Getenv("C19_ONLY") // development aid: run the searches whose name contains this string
 	runs := plan(r)
 	if r.ReplayPath != "" {
@@ -815,6 +868,7 @@ func main() {
 	r.Assume("cleveldb is not checked: libs/db/c_level_db.go does not compile under its build tag (creator signature, missing Seek)")
 	r.Assume("Iterator.Seek, Domain, Stats, Print and concurrent use are outside the statement and not exercised")
 	r.Assume("a batch that has been written is only reused after Reset; keys and values passed to the store are never modified afterwards")
+	removeScratch(false)
 	r.Assume("disk backends run on tmpfs (/dev/shm); durability across crashes is not part of this property (close is orderly)")
 	r.Finish()
 }
